@@ -93,7 +93,7 @@ impl SodiumCtx {
     /// Execute the given code after the current transaction is
     /// closed, or immediately if there is no current transaction.
     pub fn post<K: FnMut() + Send + 'static>(&self, k: K) {
-        self.impl_.post(k);
+        self.impl_.transaction(|| self.impl_.post(k));
     }
 
     /// Create a new [`Router`] in this context.
